@@ -8,7 +8,11 @@ import (
 	"strings"
 )
 
-type iuses struct{ W, H bool }
+type iuses struct{ W, H, S, B bool } // hash parameters used: Write, Sum, Size(), BlockSize()
+
+func (u *iuses) or(v iuses) {
+	u.W, u.H, u.S, u.B = u.W || v.W, u.H || v.H, u.S || v.S, u.B || v.B
+}
 
 type impFn struct {
 	p          *impPkg
@@ -52,7 +56,7 @@ type ictx struct {
 var leanReserved = map[string]bool{"end": true, "from": true, "at": true, "show": true, "then": true, "fun": true, "open": true, "by": true, "do": true, "in": true,
 	"have": true, "let": true, "match": true, "with": true, "if": true, "else": true, "def": true, "theorem": true, "where": true, "namespace": true, "section": true,
 	"instance": true, "structure": true, "class": true, "Type": true, "Prop": true, "Sort": true, "this": true, "W": true, "H": true, "rest_": true, "ret_": true,
-	"some": true, "none": true, "len": true, "copy": true, "index": true, "deref": true, "makeBytes": true, "bytesOfString": true, "numCPU": true, "fuel_": true, "shl64": true, "uintOfInt": true}
+	"some": true, "none": true, "len": true, "copy": true, "index": true, "deref": true, "makeBytes": true, "bytesOfString": true, "numCPU": true, "fuel_": true, "shl64": true, "uintOfInt": true, "min": true, "max": true, "hSize": true, "hBlockSize": true, "copyAt": true, "setAt": true, "byteOfInt": true}
 
 func lname(n string) string {
 	if leanReserved[n] {
@@ -162,6 +166,9 @@ func (f *impFn) expr(e ast.Expr, want *ity, c *ictx) (string, *ity) {
 			if want != nil && want.k == "uint64" { // untyped constant in a uint64 context
 				return v.Value, tyU64
 			}
+			if want != nil && want.k == "byte" {
+				return "(" + v.Value + " : UInt8)", tyByte
+			}
 			return v.Value, tyInt
 		}
 		p.die(e, "literal outside the subset")
@@ -257,6 +264,20 @@ func (f *impFn) expr(e ast.Expr, want *ity, c *ictx) (string, *ity) {
 		return f.binary(v, want, c)
 	case *ast.CompositeLit:
 		t := p.goType(v.Type)
+		if t.k == "slice" && t.elem.k == "byte" {
+			var els []string
+			for _, el := range v.Elts {
+				if _, ok := el.(*ast.KeyValueExpr); ok {
+					p.die(el, "keyed slice literal")
+				}
+				es, et := f.expr(el, tyByte, c)
+				if et.k != "byte" {
+					p.die(el, "byte expected, %v given", et)
+				}
+				els = append(els, es)
+			}
+			return "[" + strings.Join(els, ", ") + "]", t
+		}
 		if t.k != "struct" {
 			p.die(e, "composite literal of %v", t)
 		}
@@ -351,6 +372,20 @@ func (f *impFn) binary(v *ast.BinaryExpr, want *ity, c *ictx) (string, *ity) {
 		}
 		op := map[token.Token]string{token.LSS: "<", token.LEQ: "≤", token.GTR: ">", token.GEQ: "≥"}[v.Op]
 		return "decide (" + xs + " " + op + " " + ys + ")", tyBool
+	case token.XOR:
+		xs, xt := f.expr(v.X, tyByte, c)
+		ys, yt := f.expr(v.Y, tyByte, c)
+		if xt.k != "byte" || yt.k != "byte" {
+			p.die(v, "^ on %v, %v (only bytes)", xt, yt)
+		}
+		return parenImp(xs) + " ^^^ " + parenImp(ys), tyByte
+	case token.SHR:
+		xs, xt := f.expr(v.X, tyInt, c)
+		n := litInt(v.Y)
+		if xt.k != "int" || n == nil {
+			p.die(v, ">> form (only int >> literal: arithmetic shift = floor division by 2^n)")
+		}
+		return "Int.shiftRight " + parenImp(xs) + " " + n.String(), tyInt
 	case token.SHL:
 		// x << s on uint64 (an untyped constant x takes its type from the context); s must be unsigned
 		xs, xt := f.expr(v.X, want, c)
@@ -470,6 +505,14 @@ func (f *impFn) call(v *ast.CallExpr, want *ity, c *ictx) (string, *ity) {
 			c.uses.H = true
 			return "Hash.Sum H " + parenImp(xs) + " " + parenImp(as), tyBytes
 		}
+		if m == "Size" && len(v.Args) == 0 {
+			c.uses.S = true
+			return "hSize", tyInt
+		}
+		if m == "BlockSize" && len(v.Args) == 0 {
+			c.uses.B = true
+			return "hBlockSize", tyInt
+		}
 		p.die(v, "hash method %s in expression position", m)
 	}
 	if id, ok := v.Fun.(*ast.Ident); ok && p.absDecl[id.Name] != nil && f.lookup(id.Name) == nil {
@@ -493,7 +536,45 @@ func (f *impFn) call(v *ast.CallExpr, want *ity, c *ictx) (string, *ity) {
 		}
 		return out, rt
 	}
+	if id, ok := v.Fun.(*ast.Ident); ok && f.lookup(id.Name) == nil && p.translated[id.Name] != nil {
+		// call of a package-local function translated before (pure: no receiver, one result)
+		sig := p.translated[id.Name]
+		if len(sig.params) != len(v.Args) || v.Ellipsis.IsValid() {
+			p.die(v, "call of %s: arity", id.Name)
+		}
+		out := lname(id.Name)
+		for i, a := range v.Args {
+			as, at := f.expr(a, sig.params[i], c)
+			if !at.eq(sig.params[i]) {
+				p.die(a, "argument %d of %s: %v expected, %v given", i, id.Name, sig.params[i], at)
+			}
+			out += " " + parenImp(as)
+		}
+		return out, sig.result
+	}
 	switch exprText(v.Fun) {
+	case "sha256.New":
+		if len(v.Args) == 0 { // a fresh hasher; which hash it is = the parameters W / H / hSize / hBlockSize
+			return "({} : Hash)", tyHash
+		}
+	case "errors.New":
+		if len(v.Args) == 1 {
+			if bl, ok := v.Args[0].(*ast.BasicLit); ok && bl.Kind == token.STRING {
+				return "Err.sentinel " + bl.Value, tyErr
+			}
+		}
+		p.die(v, "errors.New form")
+	case "uint8", "byte":
+		if len(v.Args) == 1 && f.lookup(exprText(v.Fun)) == nil {
+			xs, xt := f.expr(v.Args[0], nil, c)
+			switch xt.k {
+			case "int":
+				return "byteOfInt " + parenImp(xs), tyByte
+			case "byte":
+				return xs, tyByte
+			}
+			p.die(v, "conversion to uint8 of %v", xt)
+		}
 	case "uint", "uint64":
 		if len(v.Args) == 1 && f.lookup(exprText(v.Fun)) == nil {
 			xs, xt := f.expr(v.Args[0], nil, c)
